@@ -240,8 +240,29 @@ func (l *List) Equals(st funcGen.Stack[Value], other *List, equal funcGen.BoolFu
 	return true, nil
 }
 
+// Iterate returns a producer to iterate over the list. If the creation of an
+// item panics - a lazy list is created while it is iterated, which may happen
+// long after the evaluation that returned the list, and its recover, is over -
+// the panic is converted to an error which is passed to the consumer. A panic
+// of the consumer itself is not touched.
 func (l *List) Iterate(st funcGen.Stack[Value]) iterator.Producer[Value] {
-	return l.iterable(st)
+	p := l.iterable(st)
+	return func(yield iterator.Consumer[Value]) {
+		inConsumer := false
+		defer func() {
+			if !inConsumer {
+				if rec := recover(); rec != nil {
+					yield(nil, parser2.AnyToError(rec))
+				}
+			}
+		}()
+		p(func(v Value, err error) bool {
+			inConsumer = true
+			goOn := yield(v, err)
+			inConsumer = false
+			return goOn
+		})
+	}
 }
 
 // ToSlice returns the list elements as a slice
